@@ -9,9 +9,12 @@ row = (case, type text, unit, unwind, cap, borrows, quick, note)
   unwind  = loop bound (max element/byte count compared + 2)
   cap     = sink capacity in bytes
   borrows = the ε-copy result can contain borrowed parts (C03 applies)
+  shapes  = number of enumerated shapes (concrete sequence lengths / UTF-8 width
+            classes, see the *_SHAPES tables in cases.rs); qshapes = subset used by quick
 """
-P = lambda case, ty, unit=1, unwind=4, cap=64, borrows=False, quick=False, note="": dict(
-    case=case, ty=ty, unit=unit, unwind=unwind, cap=cap, borrows=borrows, quick=quick, note=note)
+P = lambda case, ty, unit=1, unwind=4, cap=64, borrows=False, quick=False, note="", shapes=1, qshapes=None: dict(
+    case=case, ty=ty, unit=unit, unwind=max(unwind, unit + 2), cap=cap, borrows=borrows, quick=quick, note=note,
+    shapes=shapes, qshapes=qshapes if qshapes is not None else list(range(shapes)))
 
 ROWS = [
     # primitives (never padded: written with write_all, read by value)
@@ -32,17 +35,17 @@ ROWS = [
     P("VecZAl32", "Vec<ZAl32>", 32, 3, cap=128, borrows=True), P("VecZUnit", "Vec<ZUnit>", 1, 4, borrows=True),
     P("VecZE", "Vec<ZE>", 8, 3, borrows=True), P("VecRangeTo", "Vec<RangeTo<u32>>", 4, 4, borrows=True),
     P("BoxU32", "Box<[u32]>", 4, 5, borrows=True, quick=True),
-    P("Str", "String", 1, 10, borrows=True, quick=True, note="<= 2 chars, every code point"),
-    P("BoxStr", "Box<str>", 1, 10, borrows=True),
+    P("Str", "String", 1, 10, borrows=True, quick=True, note="<= 2 chars, every code point, 8 width-class shapes", shapes=8, qshapes=[0, 1, 4, 6]),
+    P("BoxStr", "Box<str>", 1, 10, borrows=True, shapes=8, qshapes=[5]),
     # deep sequences
-    P("VecVecU16", "Vec<Vec<u16>>", 2, 4, borrows=True, quick=True), P("VecString", "Vec<String>", 1, 6, borrows=True),
-    P("BoxString", "Box<[String]>", 1, 6, borrows=True), P("VecOptU8", "Vec<Option<u8>>", 1, 4),
+    P("VecVecU16", "Vec<Vec<u16>>", 2, 4, borrows=True, quick=True, shapes=6, qshapes=[0, 1, 5]), P("VecString", "Vec<String>", 1, 6, borrows=True, shapes=6, qshapes=[5]),
+    P("BoxString", "Box<[String]>", 1, 6, borrows=True, shapes=6, qshapes=[4]), P("VecOptU8", "Vec<Option<u8>>", 1, 4),
     P("OptVecU16", "Option<Vec<u16>>", 2, 4, borrows=True, quick=True), P("OptVecU64", "Option<Vec<u64>>", 8, 3, borrows=True),
     # arrays
     P("ArrU32x0", "[u32;0]", 4, 3, borrows=True, quick=True, note="empty zero-copy array"), P("ArrU32x1", "[u32;1]", 4, 6, borrows=True),
     P("ArrU32x3", "[u32;3]", 4, 14, borrows=True, quick=True), P("ArrUnitx2", "[();2]", 1, 4, borrows=True, quick=True),
     P("ArrZeroSx2", "[ZeroS;2]", 4, 4, borrows=True), P("ArrArrU8", "[[u8;2];2]", 1, 6, borrows=True),
-    P("ArrStringx0", "[String;0]", 1, 3), P("ArrStringx2", "[String;2]", 1, 6, borrows=True),
+    P("ArrStringx0", "[String;0]", 1, 3), P("ArrStringx2", "[String;2]", 1, 6, borrows=True, shapes=4, qshapes=[2]),
     # tuples
     P("Tup1", "(u32,)", 4, 3, borrows=True), P("Tup2", "(u16,u16)", 2, 3, borrows=True, quick=True),
     P("Tup3", "(u64,u64,u64)", 8, 3, borrows=True), P("Tup12", "12 x u8 tuple", 1, 3, borrows=True),
@@ -50,9 +53,9 @@ ROWS = [
     P("RangeU32", "Range<u32>"), P("RangeFromU8", "RangeFrom<u8>"), P("RangeToU32", "RangeTo<u32>"), P("RangeToInclU8", "RangeToInclusive<u8>"),
     P("RangeFullC", "RangeFull"), P("RangeInclU32", "RangeInclusive<u32> (not exhausted)", quick=True), P("BoundU32", "Bound<u32>", quick=True),
     P("CfU8U16", "ControlFlow<u8,u16>", quick=True),
-    P("BoundString", "Bound<String>", 1, 6, borrows=True), P("CfStringVec", "ControlFlow<String,Vec<u8>>", 1, 6, borrows=True),
+    P("BoundString", "Bound<String>", 1, 6, borrows=True, shapes=3, qshapes=[2]), P("CfStringVec", "ControlFlow<String,Vec<u8>>", 1, 6, borrows=True, shapes=3, qshapes=[1]),
     # derived deep-copy
-    P("DeepSVec", "DeepS<Vec<u16>>", 2, 6, borrows=True, quick=True), P("DeepSStr", "DeepS<String>", 1, 6, borrows=True),
+    P("DeepSVec", "DeepS<Vec<u16>>", 2, 6, borrows=True, quick=True), P("DeepSStr", "DeepS<String>", 1, 6, borrows=True, shapes=3, qshapes=[2]),
     P("DeepSU32", "DeepS<u32>"), P("MentionU16", "Mention<u16>", 2, 6), P("BothC", "Both<Vec<u8>,u16,String>", 2, 5, borrows=True),
     P("GenC", "Gen<Vec<u16>,2>", 2, 10, borrows=True, quick=True), P("TupSC", "TupS", 2, 6), P("UnitSC", "UnitS"),
     P("DeepPrimsC", "DeepPrims (#[deep_copy])"),
@@ -66,7 +69,7 @@ ROWS = [
     P("EnU8", "En<u8>", quick=True), P("EnVec", "En<Vec<u16>>", 2, 5, borrows=True), P("E1C", "E1"), P("E2C", "E2"),
     P("E5C", "E5<Vec<u8>>", 2, 5, borrows=True, quick=True),
     # nesting
-    P("OptZeroS", "Option<ZeroS>", 4, 3, borrows=True), P("VecDeepS", "Vec<DeepS<Vec<u8>>>", 1, 5, borrows=True),
+    P("OptZeroS", "Option<ZeroS>", 4, 3, borrows=True), P("VecDeepS", "Vec<DeepS<Vec<u8>>>", 1, 5, borrows=True, shapes=2),
 ]
 BY = {r["case"]: r for r in ROWS}
 
@@ -87,5 +90,9 @@ FAMILIES = {
 }
 
 
-def inst_name(fam, case, pre):
-    return f"i_{fam}_{case.lower()}_p{pre}"
+def shapes(row, tier):
+    return list(range(row["shapes"])) if tier == "thorough" else row["qshapes"]
+
+
+def inst_name(fam, case, pre, shape=0):
+    return f"i_{fam}_{case.lower()}_p{pre}" + (f"_s{shape}" if BY[case]["shapes"] > 1 else "")
